@@ -128,6 +128,54 @@ pub fn mutate_text(text: &str, ops: &[[u16; 3]]) -> String {
 
 pub struct C01;
 
+/// mode 5: small scripts whose recursive stream fold feeds the stream back into itself.  They
+/// are run in the isolated worker only (never in process).  Variants 0..2 append the canon of
+/// the whole stream (every round doubles the size of the newest value: known finding K10),
+/// variants 3..5 append a bounded value per round (linear growth: must pass).
+pub fn growth_script(variant: u16, rounds: u16) -> String {
+    let a = crate::gen::peers_for(3)[0].id.clone();
+    let n = 3 + rounds % 6;
+    match variant % 6 {
+        0 => format!("(seq (ap 1 $s) (fold $s i (seq (canon \"{a}\" $s #c) (seq (ap #c $s) (next i)))))"),
+        1 => format!("(seq (ap \"x\" $s) (fold $s i (par (seq (canon \"{a}\" $s #c) (ap #c $s)) (next i)) (null)))"),
+        2 => format!("(seq (seq (ap 1 $s) (ap 2 $s)) (fold $s i (seq (new #c (seq (canon \"{a}\" $s #c) (ap #c.$.[0] $t))) (seq (canon \"{a}\" $s #d) (seq (ap #d $s) (next i))))))"),
+        3 => format!("(seq (ap 0 $s) (fold $s i (seq (xor (mismatch i {n} (ap {n} $s)) (null)) (next i))))"),
+        4 => format!("(seq (ap \"x\" $s) (fold $s i (par (seq (canon \"{a}\" $s #c) (ap #c.length $t)) (next i)) (null)))"),
+        _ => format!("(seq (seq (ap 1 $s) (ap 2 $s)) (fold $s i (seq (ap i $t) (next i))))"),
+    }
+}
+
+fn check_growth(case: &C01Case) -> CaseResult {
+    let mut rep = CaseReport::default();
+    let c0 = case.ops[0];
+    let script = growth_script(c0[0], c0[1]);
+    let a = crate::gen::peers_for(3)[0].clone();
+    let input = json!({
+        "kind": "run", "script": script, "init": a.id, "particle_id": "growth", "timestamp": 1, "ttl": 1000, "peer_name": a.name,
+        "prev": "", "cur": "", "results": [], "input_len": script.len(),
+        // just above the judged bound: a script that passes it is stopped there
+        "live_cap": MEM_BASE + MEM_PER_BYTE * script.len() + (8 << 20),
+    });
+    let resp = isolated(&input);
+    rep.evals += 1;
+    rep.classes.push("mode:script-growth".into());
+    match judge(&resp) {
+        Err((sig, msg)) => {
+            let v = Violation { signature: format!("C01:script-growth:{}", sig), message: msg, detail: json!({"script": script, "input": input}) };
+            return CaseResult::Violation(v, rep);
+        }
+        Ok("timeout") => return CaseResult::Discard("watchdog timeout (inconclusive)".into()),
+        Ok(_) => {}
+    }
+    let code = resp["out"]["ret_code"].as_i64().unwrap_or(-1);
+    if code == 0 {
+        rep.classes.push("bounded_recursion_script_completed".into());
+        rep.nontrivial.push(fnv(script.as_bytes()));
+    }
+    rep.sample = Some(json!({"mode": "script-growth", "script": script, "ret_code": code, "msg": resp["out"]["msg"]}));
+    CaseResult::Ok(rep)
+}
+
 fn run_case_json(h: &Hist, peer_name: &str, script: &str, prev: &[u8], cur: &[u8], results: &std::collections::BTreeMap<u32, HostResult>, results_hex: Option<String>) -> Value {
     let mut v = json!({
         "kind": "run", "script": script, "init": h.particle.init_peer_id, "particle_id": h.particle.particle_id,
@@ -192,7 +240,7 @@ impl Property for C01 {
         "fault_enumeration"
     }
     fn rule(&self) -> String {
-        "faults from a catalog applied to honest histories and executed in isolated worker processes with a counting allocator: (0,1) data tampered by a participant and re-signed with its own key (26 operations on par/fold/generation/ap/lcid/state kinds/values/CIDs/stores/canon/signatures), delivered to a peer holding honest prev_data; (2) arbitrary and byte-mangled call-result maps; (3) token-mutated script texts executed with honest data; (4) parser, lambda parser, beautifier (indent 0..8, patterns on/off) and human-readable printer on mutated texts and tampered bytes. Violation = panic, process death, or peak live heap > 64 MiB + 256 x input bytes. Non-trivial = tampered data that passed decoding, CID-store verification and signature check (ret_code not in 1..9), or a mutated text that reached a sub-lexer / was accepted by the parser; distinct by input hash".into()
+        "faults from a catalog applied to honest histories and executed in isolated worker processes with a counting allocator: (0,1) data tampered by a participant and re-signed with its own key (26 operations on par/fold/generation/ap/lcid/state kinds/values/CIDs/stores/canon/signatures), delivered to a peer holding honest prev_data; (2) arbitrary and byte-mangled call-result maps; (3) token-mutated script texts executed with honest data; (4) parser, lambda parser, beautifier (indent 0..8, patterns on/off) and human-readable printer on mutated texts and tampered bytes; (5) six small scripts whose recursive stream fold feeds the stream back into itself, three doubling a value per round and three growing linearly, executed in the worker only with the live-heap cap just above the bound (1 % of the cases). Violation = panic, process death, or peak live heap > 64 MiB + 256 x input bytes. Non-trivial = tampered data that passed decoding, CID-store verification and signature check (ret_code not in 1..9), or a mutated text that reached a sub-lexer / was accepted by the parser; distinct by input hash".into()
     }
     fn assumptions(&self) -> Vec<String> {
         vec![
@@ -212,7 +260,7 @@ impl Property for C01 {
                 hist_strategy_dom(1, tier.pick(5, 7), tier.pick(30, 60), 30, false, true),
                 hist_strategy_dom(2, tier.pick(5, 7), tier.pick(30, 60), 30, false, true)
             ],
-            prop_oneof![4 => Just(0u8), 3 => Just(1u8), 1 => Just(2u8), 2 => Just(3u8), 1 => Just(4u8)],
+            prop_oneof![40 => Just(0u8), 30 => Just(1u8), 10 => Just(2u8), 20 => Just(3u8), 10 => Just(4u8), 1 => Just(5u8)],
             proptest::collection::vec(any::<[u16; 4]>(), 1..3),
             proptest::collection::vec(any::<[u16; 3]>(), 1..4),
         )
@@ -220,12 +268,15 @@ impl Property for C01 {
             .boxed()
     }
     fn required_classes(&self) -> Vec<&'static str> {
-        vec!["stage:reached-farewell", "stage:reached-execution-uncatchable", "stage:rejected-at-signature", "stage:rejected-at-cid-store", "mode:results", "mode:text", "mode:entry-points"]
+        vec!["stage:reached-farewell", "stage:reached-execution-uncatchable", "stage:rejected-at-signature", "stage:rejected-at-cid-store", "mode:results", "mode:text", "mode:entry-points", "mode:script-growth", "bounded_recursion_script_completed"]
     }
     fn max_shrink_iters(&self) -> u32 {
         600
     }
     fn check(&self, case: &C01Case, _tier: Tier) -> CaseResult {
+        if case.mode == 5 {
+            return check_growth(case);
+        }
         let h = match std::panic::catch_unwind(|| simulate(&case.hist)) {
             Ok(Ok(h)) => h,
             Ok(Err(e)) => return CaseResult::Discard(e),
